@@ -21,6 +21,10 @@ CHECKS = {
         technique='property-based testing: generated Partial/ArgFactory/Config nestings and call sequences, differential oracle against a hand-written two-stage functools.partial reference, joint canonical form across calls',
         text='Hypothesis generates a root Partial (generated signature shape or simple callable) whose arguments nest Configs, ArgFactories (also inside containers, inside other ArgFactories, as positional arguments, with custom-__eq__ products) and Partials, then 2-4 calls with positional extras and overriding keywords; each call outcome, the joint canonical form of all results (fresh vs reused vs passed through) and invocation counts must match the reference.',
         note='Trusted: RefPartial/Marker/materialize in harness/props/c04.py, refmodel.form_call, canon with behavioural probing of callables.'),
+    'C05': dict(
+        technique='property-based fault injection: generated DAG x failing node x exception-class family x build sequence; oracle on the escaping exception, invocation log, config frame condition and follow-up builds',
+        text='Every generated DAG gets one failing Config node raising from one of 20 exception-class families (custom __init__/__new__/__str__, slots, un-subclassable, local class created at raise time, KeyError/OSError/UnicodeDecodeError/StopIteration/ExceptionGroup, BaseException subclasses, arguments whose repr raises) plus nodes that attempt nested fdl.build calls; a generated sequence of failing and good builds is judged for class/message/path fidelity, no-call-after-failure, unmodified config, working follow-up build and rejection of every nested build.',
+        note='Trusted: harness/canon.walk path enumeration and path rendering in props/c05.py, refmodel.ref_build for follow-up builds. Context path required only where a proxy class can be built (see ASSUMPTIONS in evidence).'),
 }
 
 PENDING = {}
